@@ -82,7 +82,7 @@ class X12Base(object):
             if self.loops:
                 err_str = 'ISA segment found inside an unterminated {} loop'.format(self.loops[-1][0])
                 self._isa_error('022', err_str)
-            interchange_control_number = seg_data.get_value('ISA13')
+            interchange_control_number = seg_data.get_value('ISA13') or ''  # (absent and empty are the same)
             if interchange_control_number in self.isa_ids:
                 err_str = 'ISA Interchange Control Number '
                 err_str += '{} not unique within file'.format(interchange_control_number)
@@ -96,7 +96,7 @@ class X12Base(object):
             if not self.loops or self.loops[-1][0] != 'ISA':
                 err_str = 'GS segment is not directly inside an ISA loop'
                 self._isa_error('022', err_str)
-            group_control_number = seg_data.get_value('GS06')
+            group_control_number = seg_data.get_value('GS06') or ''  # (absent and empty are the same)
             if group_control_number in self.gs_ids:
                 err_str = 'GS Interchange Control Number '
                 err_str += '{} not unique within file'.format(group_control_number)
@@ -112,7 +112,7 @@ class X12Base(object):
             if not self.loops or self.loops[-1][0] != 'GS':
                 err_str = 'ST segment is not directly inside a GS loop'
                 self._isa_error('022', err_str)
-            transaction_control_number = seg_data.get_value('ST02')
+            transaction_control_number = seg_data.get_value('ST02') or ''  # (absent and empty are the same)
             if transaction_control_number in self.st_ids:
                 err_str = 'ST Interchange Control Number '
                 err_str += '{} not unique within file'.format(transaction_control_number)
@@ -362,7 +362,7 @@ class X12Reader(X12Base):
                 err_str = 'IEA id={} has no matching ISA'.format(seg_data.get_value('IEA02'))
                 self._isa_error('001', err_str)
                 return
-            if self.loops[-1][1] != seg_data.get_value('IEA02'):
+            if self.loops[-1][1] != (seg_data.get_value('IEA02') or ''):
                 err_str = 'IEA id={} does not match ISA id={}'.format(\
                     seg_data.get_value('IEA02'), self.loops[-1][1])
                 self._isa_error('001', err_str)
@@ -380,7 +380,7 @@ class X12Reader(X12Base):
                 err_str = 'GE id={} has no matching GS'.format(seg_data.get_value('GE02'))
                 self._gs_error('4', err_str)
                 return
-            if self.loops[-1][1] != seg_data.get_value('GE02'):
+            if self.loops[-1][1] != (seg_data.get_value('GE02') or ''):
                 err_str = 'GE id={} does not match GS id={}'.format(\
                     seg_data.get_value('GE02'), self.loops[-1][1])
                 self._gs_error('4', err_str)
@@ -398,7 +398,7 @@ class X12Reader(X12Base):
                 self._st_error('3', err_str)
                 return
             if self.loops[-1][0] != 'ST' or \
-                    self.loops[-1][1] != se_trn_control_num:
+                    self.loops[-1][1] != (se_trn_control_num or ''):
                 err_str = 'SE id={} does not match ST id={}'.format(\
                     se_trn_control_num, self.loops[-1][1])
                 self._st_error('3', err_str)
